@@ -1,0 +1,309 @@
+//go:build verif
+
+package auth
+
+// Contracts for property C12 (only valid credentials and live sessions authenticate).
+// Comment-only; read by /verif/engine. Trusted vocabulary: /verif/trusted/c12_auth.spec.
+
+//@ props C12
+
+// ---- the cache of verified {password, hash} pairs ----
+
+// Representation invariant of the random-replacement cache: keys lists exactly the members of the map, once each,
+// and the cache never holds more than size keys.
+//@ pred cacheWF(c *RandReplKeyCache) bool
+//@   is c.cache != nil && c.size > 0 && len(c.keys) == len(c.cache) && len(c.cache) <= c.size &&
+//@      (forall i int :: {c.keys[i]} 0 <= i && i < len(c.keys) ==> c.keys[i] in c.cache) &&
+//@      (forall i int, j int :: {c.keys[i], c.keys[j]} 0 <= i && i < j && j < len(c.keys) ==> c.keys[i] != c.keys[j])
+
+// Soundness invariant of the cache as used by compareHashAndPassword: every remembered key belongs to a pair
+// that the full bcrypt check accepts.
+//@ pred cacheSound(c *RandReplKeyCache) bool
+//@   is forall k string :: {k in c.cache} k in c.cache ==> keyOK(k)
+
+//@ func RandReplKeyCache.Contains
+//@   safety on
+//@   requires c != nil
+//@   ensures[member] ok <==> (key in c.cache)
+
+//@ func RandReplKeyCache.Put
+//@   safety on
+//@   requires c != nil && cacheWF(c)
+//@   modifies c.keys, elems(c.keys), elems(c.cache)
+//@   ensures[same-map] c.cache == old(c.cache) && c.size == old(c.size)
+//@   ensures[added]    key in c.cache
+//@   ensures[subset]   forall k string :: {k in c.cache} k in c.cache ==> old(k in c.cache) || k == key
+//@   ensures[bounded]  len(c.cache) <= c.size
+//@   ensures[wf]       cacheWF(c)
+
+//@ func RandReplKeyCache.Purge
+//@   safety on
+//@   requires c != nil
+//@   modifies c.keys, c.cache
+//@   ensures[empty] forall k string :: {k in c.cache} !(k in c.cache)
+//@   ensures[fresh] c.cache != nil && !old(allocated(now(c.cache)))
+//@   ensures[wf]    c.size > 0 ==> cacheWF(c)
+
+// ---- the Cache interface as seen by compareHashAndPassword ----
+// ASSUMPTION (dynamic dispatch): when the dynamic type of the interface value is *RandReplKeyCache, the interface
+// call runs the method of that name on RandReplKeyCache, whose verified contract (above) is repeated here.
+// RandReplKeyCache is the only implementation of Cache in non-test code.
+
+//@ extern func github.com/couchbase/sync_gateway/auth.Cache.Contains
+//@   inert
+//@   requires[impl] dynType(recv) == typeTag(*RandReplKeyCache) && unbox(recv, *RandReplKeyCache) != nil
+//@   ensures result <==> (key in unbox(recv, *RandReplKeyCache).cache)
+
+//@ extern func github.com/couchbase/sync_gateway/auth.Cache.Put
+//@   requires[impl] dynType(recv) == typeTag(*RandReplKeyCache) && unbox(recv, *RandReplKeyCache) != nil
+//@   requires[wf]   cacheWF(unbox(recv, *RandReplKeyCache))
+//@   modifies unbox(recv, *RandReplKeyCache).keys, elems(unbox(recv, *RandReplKeyCache).keys), elems(unbox(recv, *RandReplKeyCache).cache)
+//@   ensures unbox(recv, *RandReplKeyCache).cache == old(unbox(recv, *RandReplKeyCache).cache) && unbox(recv, *RandReplKeyCache).size == old(unbox(recv, *RandReplKeyCache).size)
+//@   ensures key in unbox(recv, *RandReplKeyCache).cache
+//@   ensures forall k string :: {k in unbox(recv, *RandReplKeyCache).cache} k in unbox(recv, *RandReplKeyCache).cache ==> old(k in unbox(recv, *RandReplKeyCache).cache) || k == key
+//@   ensures cacheWF(unbox(recv, *RandReplKeyCache))
+
+// ---- password check with the fast path ----
+
+// authKey hashes the password with SHA1 and appends the bcrypt hash; the body is calls into crypto/sha1 only.
+// TRUSTED: the result is the function akey of the two byte strings (deterministic, no heap effect besides fresh allocations).
+//@ func authKey
+//@   trusted
+//@   inert
+//@   ensures key == akey(hash, password)
+
+// The decision: true exactly when the full bcrypt check accepts the pair; in particular the fast path
+// (cache hit) never accepts a password that bcrypt.CompareHashAndPassword would reject. The cache invariants are kept.
+//@ func compareHashAndPassword
+//@   requires[impl]  dynType(cache) == typeTag(*RandReplKeyCache) && unbox(cache, *RandReplKeyCache) != nil
+//@   requires[wf]    cacheWF(unbox(cache, *RandReplKeyCache))
+//@   requires[sound] cacheSound(unbox(cache, *RandReplKeyCache))
+//@   modifies unbox(cache, *RandReplKeyCache).keys, elems(unbox(cache, *RandReplKeyCache).keys), elems(unbox(cache, *RandReplKeyCache).cache)
+//@   ensures[same-map]        unbox(cache, *RandReplKeyCache).cache == old(unbox(cache, *RandReplKeyCache).cache)
+//@   ensures[never-too-eager] result ==> bcryptOK(hash, password)
+//@   ensures[complete]        bcryptOK(hash, password) ==> result
+//@   ensures[wf]              cacheWF(unbox(cache, *RandReplKeyCache))
+//@   ensures[sound]           cacheSound(unbox(cache, *RandReplKeyCache))
+
+// ---- users: password authentication ----
+
+//@ pred userOf(u User) *userImpl
+//@   is unbox(u, *userImpl)
+
+// The password clause of the property for user u in the current state: with a bcrypt hash present the full check
+// accepts the presented password, without one only the empty password is accepted.
+// (ENGINE LIMITATION: a conversion []byte(password) is modelled as a fresh byte slice of which only the length is
+// known, so the presented password is identified by its length here; see the report.)
+//@ pred credOK(u *userImpl, password string) bool
+//@   is ite(u.PasswordHash_ != nil, (exists pw []byte :: {bcryptOK(u.PasswordHash_, pw)} len(pw) == len(password) && bcryptOK(u.PasswordHash_, pw)), password == "")
+
+// Global precondition of everything that checks a password: the process-wide cache satisfies its invariants
+// (true initially: NewRandReplKeyCache(25000) is empty; preserved by every function under contract that touches it).
+//@ pred hashCacheOK() bool
+//@   is cachedHashes != nil && cacheWF(cachedHashes) && cacheSound(cachedHashes)
+
+//@ func userImpl.Disabled
+//@   pure
+//@ func userImpl.GetSessionUUID
+//@   pure
+
+//@ func userImpl.UpdateSessionUUID
+//@   requires user != nil
+//@   modifies user.SessionUUID_, issuedUUIDs
+//@   ensures[fresh] user.SessionUUID_ != "" && !(user.SessionUUID_ in old(issuedUUIDs)) && (user.SessionUUID_ in issuedUUIDs) && subset(old(issuedUUIDs), issuedUUIDs)
+
+// Changing the password invalidates every existing session of the user: the new session uuid differs from every
+// uuid issued before, in particular from the one recorded in any session document created earlier
+// (GetSession / AuthenticateCookie reject a session whose uuid differs from the user's: see [uuid-matches] below).
+//@ func userImpl.SetPassword
+//@   requires user != nil && user.auth != nil
+//@   requires[uuid-issued] user.SessionUUID_ == "" || (user.SessionUUID_ in issuedUUIDs)
+//@   modifies user.SessionUUID_, user.PasswordHash_, issuedUUIDs
+//@   ensures[session-before-password-change-rejected] user.SessionUUID_ != old(user.SessionUUID_) && !(user.SessionUUID_ in old(issuedUUIDs))
+//@   ensures[uuid-issued]   user.SessionUUID_ in issuedUUIDs
+//@   ensures[cleared]       isNilErr(result) && password == "" ==> user.PasswordHash_ == nil
+//@   ensures[hashed]        isNilErr(result) && password != "" ==> user.PasswordHash_ != nil
+//@   ensures[new-password]  isNilErr(result) ==> credOK(user, password)
+
+// rehashPassword re-saves the user with a hash of the same password at the configured bcrypt cost, through a
+// compare-and-swap retry loop with a callback (casUpdatePrincipal): out of reach of the verifier.
+// TRUSTED: it writes only the password hash, the session uuid (SetPassword), the update time and the cas of user
+// objects, may add an e-mail lookup document, and the new hash (bcrypt.GenerateFromPassword of the same password)
+// still accepts the password that was just verified.
+//@ func Authenticator.rehashPassword
+//@   trusted
+//@   modifies userImpl.PasswordHash_, userImpl.SessionUUID_, roleImpl.UpdatedAt, roleImpl.cas, issuedUUIDs, docs
+//@   ensures dynType(user) == typeTag(*userImpl) && old(credOK(userOf(user), password)) ==> credOK(userOf(user), password)
+
+// "ok" only if every required check passed, on every path.
+//@ func userImpl.AuthenticateWithReason
+//@   requires[cache] hashCacheOK()
+//@   modifies cachedHashes.keys, elems(cachedHashes.keys), elems(cachedHashes.cache), userImpl.PasswordHash_, userImpl.SessionUUID_, roleImpl.UpdatedAt, roleImpl.cas, issuedUUIDs, docs
+//@   ensures[cache]            hashCacheOK()
+//@   ensures[exists]           ok ==> user != nil
+//@   ensures[enabled]          ok ==> !user.Disabled_
+//@   ensures[no-legacy-hash]   ok ==> isNilErr(user.OldPasswordHash_)
+//@   ensures[password-checked] ok ==> old(credOK(user, password))
+//@   ensures[password]         ok ==> credOK(user, password)
+
+//@ func userImpl.Authenticate
+//@   requires[cache] hashCacheOK()
+//@   modifies cachedHashes.keys, elems(cachedHashes.keys), elems(cachedHashes.cache), userImpl.PasswordHash_, userImpl.SessionUUID_, roleImpl.UpdatedAt, roleImpl.cas, issuedUUIDs, docs
+//@   ensures[cache]            hashCacheOK()
+//@   ensures[exists]           result ==> user != nil
+//@   ensures[enabled]          result ==> !user.Disabled_
+//@   ensures[no-legacy-hash]   result ==> isNilErr(user.OldPasswordHash_)
+//@   ensures[password-checked] result ==> old(credOK(user, password))
+//@   ensures[password]         result ==> credOK(user, password)
+
+// ---- the User interface as seen by the authenticator ----
+// ASSUMPTION (dynamic dispatch), as for Cache: for dynamic type *userImpl the interface call runs the userImpl method,
+// whose contract (verified above, or derived from its body for the pure getters) is repeated here.
+
+//@ extern func github.com/couchbase/sync_gateway/auth.User.GetSessionUUID
+//@   inert
+//@   ensures dynType(recv) == typeTag(*userImpl) ==> result == userOf(recv).GetSessionUUID()
+
+//@ extern func github.com/couchbase/sync_gateway/auth.User.Disabled
+//@   inert
+//@   ensures dynType(recv) == typeTag(*userImpl) ==> result == userOf(recv).Disabled()
+
+//@ extern func github.com/couchbase/sync_gateway/auth.User.AuthenticateWithReason
+//@   requires[impl]  dynType(recv) == typeTag(*userImpl)
+//@   requires[cache] hashCacheOK()
+//@   modifies cachedHashes.keys, elems(cachedHashes.keys), elems(cachedHashes.cache), userImpl.PasswordHash_, userImpl.SessionUUID_, roleImpl.UpdatedAt, roleImpl.cas, issuedUUIDs, docs
+//@   ensures hashCacheOK()
+//@   ensures result0 ==> userOf(recv) != nil && !userOf(recv).Disabled_ && isNilErr(userOf(recv).OldPasswordHash_) && credOK(userOf(recv), password)
+
+// ---- document keys ----
+
+//@ pred sessKey(mk *base.MetadataKeys, id string) string
+//@   is mk.SessionKey(id)
+
+//@ func Authenticator.DocIDForSession
+//@   requires a != nil && a.MetaKeys != nil
+//@   ensures[key] result == sessKey(a.MetaKeys, sessionID)
+
+//@ func Authenticator.DocIDForUser
+//@   requires a != nil && a.MetaKeys != nil
+//@   ensures[key] result == userDocKey(a.MetaKeys, username)
+
+// ---- loading users ----
+// GetUser loads the user document through a storage update callback (getPrincipal: closure passed to a retry loop,
+// channel/role recomputation): out of reach. TRUSTED: the result, if any, is a *userImpl bound to this
+// authenticator whose docID is the key of the requested name; on error no user is returned; nothing that the contracts
+// of this file mention (authenticator fields, password cache, other users, sessions, the key set of the bucket) is written.
+//@ func Authenticator.GetUser
+//@   trusted
+//@   ensures !isNilErr(result1) ==> result0 == nil
+//@   ensures result0 != nil ==> dynType(result0) == typeTag(*userImpl) && userOf(result0) != nil
+//@   ensures result0 != nil ==> userOf(result0).auth == auth && userOf(result0).docID == userDocKey(auth.MetaKeys, name)
+
+// A user is returned only without error and only if AuthenticateWithReason accepted the password for the user
+// stored under that name.
+//@ func Authenticator.AuthenticateUser
+//@   requires auth != nil && auth.MetaKeys != nil
+//@   requires[cache] hashCacheOK()
+//@   modifies cachedHashes.keys, elems(cachedHashes.keys), elems(cachedHashes.cache), userImpl.PasswordHash_, userImpl.SessionUUID_, roleImpl.UpdatedAt, roleImpl.cas, issuedUUIDs, docs
+//@   ensures[cache]          hashCacheOK()
+//@   ensures[no-error]       result0 != nil ==> isNilErr(result1)
+//@   ensures[impl]           result0 != nil ==> dynType(result0) == typeTag(*userImpl) && userOf(result0) != nil
+//@   ensures[named-user]     result0 != nil ==> userOf(result0).docID == userDocKey(auth.MetaKeys, username)
+//@   ensures[enabled]        result0 != nil ==> !userOf(result0).Disabled_
+//@   ensures[no-legacy-hash] result0 != nil ==> isNilErr(userOf(result0).OldPasswordHash_)
+//@   ensures[password]       result0 != nil ==> credOK(userOf(result0), password)
+
+// ---- sessions ----
+
+//@ pred isOneTime(s *LoginSession) bool
+//@   is s.OneTime != nil && *s.OneTime
+
+// user u is the stored user named in session s and s carries u's current session uuid
+//@ pred sessionOf(a *Authenticator, s *LoginSession, u User) bool
+//@   is dynType(u) == typeTag(*userImpl) && userOf(u) != nil &&
+//@      userOf(u).docID == userDocKey(a.MetaKeys, s.Username) && s.SessionUUID == userOf(u).SessionUUID_
+
+// the document of a one-time session s was there and has been deleted
+//@ pred consumed(a *Authenticator, s *LoginSession) bool
+//@   is old(sessKey(a.MetaKeys, now(s.ID)) in docs) && !(sessKey(a.MetaKeys, s.ID) in docs)
+
+// Deletes the document of a one-time session; a nil result for a one-time session means that this very call
+// removed the document (so, by the storage contract of Delete, no other presentation of the session can get nil).
+//@ func Authenticator.deleteOneTimeSession
+//@   requires auth != nil && auth.MetaKeys != nil && session != nil
+//@   modifies docs
+//@   ensures[plain]    !isOneTime(session) ==> isNilErr(result) && docs == old(docs)
+//@   ensures[consumed] isOneTime(session) && isNilErr(result) ==> (sessKey(auth.MetaKeys, session.ID) in old(docs)) && !(sessKey(auth.MetaKeys, session.ID) in docs)
+//@   ensures[refused]  !isNilErr(result) ==> dynType(result) == typeTag(*base.HTTPError) && unbox(result, *base.HTTPError).Status == 401
+//@   ensures[mono]     subset(docs, old(docs))
+
+// A session and its user are returned only if the session document exists, the user named in it exists, the
+// session carries the user's current session uuid, and (property text) the user is not disabled.
+//@ func Authenticator.GetSession
+//@   requires auth != nil && auth.MetaKeys != nil
+//@   ensures[all-or-nothing] (isNilErr(result2) <==> result1 != nil) && (isNilErr(result2) <==> result0 != nil)
+//@   ensures[found]          result1 != nil ==> sessKey(auth.MetaKeys, sessionID) in docs
+//@   ensures[uuid-matches]   result1 != nil ==> sessionOf(auth, result0, result1)
+//@   ensures[not-disabled]   result1 != nil ==> !userOf(result1).Disabled_
+//@   ensures[docs]           docs == old(docs)
+
+// The user is returned only after the delete of a one-time session's document has succeeded
+// ([one-time-consumed]: stated for the session object the function worked on, which exists in the heap on return;
+// `propagates`: a failed delete always surfaces as an error, and [no-error]: a user never comes with an error).
+//@ func Authenticator.AuthenticateOneTimeSession
+//@   requires auth != nil && auth.MetaKeys != nil
+//@   modifies docs
+//@   propagates deleteOneTimeSession#1
+//@   ensures[no-error]          result0 != nil ==> isNilErr(result1)
+//@   ensures[found]             result0 != nil ==> sessKey(auth.MetaKeys, sessionID) in old(docs)
+//@   ensures[session]           result0 != nil ==> (exists s *LoginSession :: {s.SessionUUID} s != nil && sessionOf(auth, s, result0) && (isOneTime(s) ==> consumed(auth, s)) && (!isOneTime(s) ==> docs == old(docs)))
+//@   ensures[not-disabled]      result0 != nil ==> !userOf(result0).Disabled_
+//@   ensures[mono]              subset(docs, old(docs))
+//@   ensures[unauthorized]      !isNilErr(result1) ==> result0 == nil && dynType(result1) == typeTag(*base.HTTPError) && unbox(result1, *base.HTTPError).Status == 401
+
+// Creating a session: never for a disabled user; the session is bound to the user's name and current session uuid,
+// is stored under the key derived from its own id (the invariant that ties a session document's id field to its key),
+// and is one-time exactly when asked.
+//@ func Authenticator.CreateSession
+//@   requires auth != nil && auth.MetaKeys != nil && user != nil && dynType(user) == typeTag(*userImpl) && userOf(user) != nil
+//@   modifies docs
+//@   before[key-from-id] call Set#1 $2 == sessKey(auth.MetaKeys, session.ID)
+//@   ensures[not-for-disabled] isNilErr(result1) ==> !userOf(user).Disabled_
+//@   ensures[bound-to-user]    isNilErr(result1) ==> result0 != nil && result0.SessionUUID == userOf(user).SessionUUID_
+//@   ensures[stored]           isNilErr(result1) ==> sessKey(auth.MetaKeys, result0.ID) in docs
+//@   ensures[one-time-flag]    isNilErr(result1) ==> (isOneTime(result0) <==> oneTime)
+//@   ensures[mono]             subset(old(docs), docs)
+
+// Deleting a session removes its document: afterwards GetSession / AuthenticateCookie cannot find it ([found] needs the key in docs).
+//@ func Authenticator.DeleteSession
+//@   requires auth.MetaKeys != nil
+//@   modifies docs
+//@   ensures[deleted] isNilErr(result) ==> !(sessKey(auth.MetaKeys, sessionID) in docs)
+//@   ensures[mono]    subset(docs, old(docs))
+
+// the value of the cookie called name in the headers of request r: see net/http.Request.Cookie in /verif/trusted/c12_auth.spec
+//@ fn cookieValue(r *http.Request, name string) string
+
+// Cookie authentication: a user is returned only without error, only if the session document named by the cookie exists,
+// the user named in it exists and the session carries the user's current session uuid, (property text) the user is not
+// disabled, and - for a one-time session - only after this call has deleted the session document.
+//@ func Authenticator.AuthenticateCookie
+//@   requires auth != nil && auth.MetaKeys != nil && rq != nil
+//@   modifies docs
+//@   propagates deleteOneTimeSession#1
+//@   before[checked-before-delete] call deleteOneTimeSession#1 user != nil && sessionOf(auth, $2, user)
+//@   ensures[no-error]     result0 != nil ==> isNilErr(result1)
+//@   ensures[found]        result0 != nil ==> sessKey(auth.MetaKeys, cookieValue(rq, auth.SessionCookieName)) in old(docs)
+//@   ensures[session]      result0 != nil ==> (exists s *LoginSession :: {s.SessionUUID} s != nil && sessionOf(auth, s, result0) && (isOneTime(s) ==> consumed(auth, s)))
+//@   ensures[not-disabled] result0 != nil ==> !userOf(result0).Disabled_
+
+// Glue between SetPassword's [session-before-password-change-rejected] and the [uuid-matches] clauses: a session that
+// still carries the uuid the user had before the password change is not a session of the user any more.
+//@ lemma session_before_password_change_rejected(a *Authenticator, s *LoginSession, u User, uuidBefore string)
+//@   requires s != nil && dynType(u) == typeTag(*userImpl) && userOf(u) != nil
+//@   requires s.SessionUUID == uuidBefore && userOf(u).SessionUUID_ != uuidBefore
+//@   ensures[rejected] !sessionOf(a, s, u)
+
+// ---- construction ----
+//@ func NewAuthenticator
+//@   ensures[metakeys] result != nil && (options.MetaKeys != nil ==> result.MetaKeys == options.MetaKeys)
